@@ -315,6 +315,8 @@ class FSM(object):
                 # self.bgp_peering.releaseResources(self.protocol)
                 pass
             self._close_connection()
+            # the hold timer started with the OPEN belongs to the connection that just failed
+            self.hold_timer.cancel()
             self.connect_retry_timer.reset(self.connect_retry_time)
             self.state = bgp_cons.ST_ACTIVE
             if self.bgp_peering:
